@@ -52,8 +52,9 @@ mod verif_uri_kb {
         }
     }}
 
-    //@harness rsync_relative_join_kb Kb fn=Rsync::relative_to,Rsync::join,Rsync::is_parent_of bound="rsync://h/<m1>/<p1><p2> vs rsync://h/<m2>/<q>: five symbolic octets" timeout=1500
-    verif_harness!{ #[kani::unwind(20)] rsync_relative_join_kb; |m1: u8, m2: u8, p1: u8, p2: u8, q: u8, ql: bool| {
+    //@harness rsync_relative_join_kb Kb fn=Rsync::relative_to,Rsync::join,Rsync::is_parent_of bound="rsync://h/<m1>/a<p2> vs rsync://h/<m2>/<q>: four symbolic octets" timeout=1500
+    verif_harness!{ #[kani::unwind(20)] rsync_relative_join_kb; |m1: u8, m2: u8, p2: u8, q: u8, ql: bool| {
+        let p1 = b'a';
         let a = Rsync::from_bytes(mkbytes([b'r', b's', b'y', b'n', b'c', b':', b'/', b'/', b'h', b'/', m1, b'/', p1, p2], 14));
         let o = Rsync::from_bytes(mkbytes([b'r', b's', b'y', b'n', b'c', b':', b'/', b'/', b'h', b'/', m2, b'/', q], if ql { 13 } else { 12 }));
         if let (Ok(a), Ok(o)) = (a, o) {
@@ -76,9 +77,9 @@ mod verif_uri_kb {
         }
     }}
 
-    //@harness rsync_join_parent_kb Kb fn=Rsync::join,Rsync::parent bound="base rsync://h/m/<b>, argument of at most 3 symbolic octets" timeout=1500
-    verif_harness!{ #[kani::unwind(20)] rsync_join_parent_kb; |b: u8, bl: bool, p: [u8; 3], n: usize| {
-        assume(n >= 1 && n <= 3);
+    //@harness rsync_join_parent_kb Kb fn=Rsync::join,Rsync::parent bound="base rsync://h/m/ or rsync://h/m/<b>, argument of 1-2 symbolic octets" timeout=1500
+    verif_harness!{ #[kani::unwind(20)] rsync_join_parent_kb; |b: u8, bl: bool, p: [u8; 2], n: usize| {
+        assume(n >= 1 && n <= 2);
         let base = Rsync::from_bytes(mkbytes([b'r', b's', b'y', b'n', b'c', b':', b'/', b'/', b'h', b'/', b'm', b'/', b], if bl { 13 } else { 12 }));
         if let Ok(base) = base {
             if let Ok(j) = base.join(&p[..n]) {
@@ -96,9 +97,9 @@ mod verif_uri_kb {
         }
     }}
 
-    //@harness https_join_kb Kb fn=Https::from_bytes,Https::join,Https::parent bound="https://h<b1><b2> (0-2 symbolic octets) joined with 1-2 symbolic octets" timeout=1500
-    verif_harness!{ #[kani::unwind(20)] https_join_kb; |b: [u8; 2], bn: usize, p: [u8; 2], pn: usize| {
-        assume(bn <= 2 && pn >= 1 && pn <= 2);
+    //@harness https_join_kb Kb fn=Https::from_bytes,Https::join,Https::parent bound="https://h<b1><b2> (0-2 symbolic octets) joined with 1 symbolic octet" timeout=1500
+    verif_harness!{ #[kani::unwind(20)] https_join_kb; |b: [u8; 2], bn: usize, p: [u8; 1], pn: usize| {
+        assume(bn <= 2 && pn == 1);
         let base = Https::from_bytes(mkbytes([b'h', b't', b't', b'p', b's', b':', b'/', b'/', b'h', b[0], b[1]], 9 + bn));
         if let Ok(base) = base {
             assert!(base.as_slice().len() == 9 + bn, "text unchanged");
@@ -126,16 +127,19 @@ mod verif_uri_kb {
     }
     fn fed<T: hash::Hash>(t: &T) -> Rec { let mut r = Rec { n: 0, b: [0; 24] }; t.hash(&mut r); r }
 
-    //@harness uri_eq_hash_kb Kb fn=PartialEq/Hash(Rsync,Https) bound="rsync://<a>/<m>/<p> vs rsync://<b>/<n>/<q>: six symbolic octets; same for https://<a>/<p>" timeout=1500
-    verif_harness!{ #[kani::unwind(30)] uri_eq_hash_kb; |a: u8, m: u8, p: u8, b: u8, n: u8, q: u8| {
-        let x = Rsync::from_bytes(mkbytes([b'r', b's', b'y', b'n', b'c', b':', b'/', b'/', a, b'/', m, b'/', p], 13));
-        let y = Rsync::from_bytes(mkbytes([b'R', b's', b'Y', b'n', b'c', b':', b'/', b'/', b, b'/', n, b'/', q], 13));
+    //@harness rsync_eq_hash_kb Kb fn=PartialEq/Hash(Rsync) bound="rsync://<a>/<m>/p vs Rsync://<b>/<n>/p: four symbolic octets" timeout=1500
+    verif_harness!{ #[kani::unwind(30)] rsync_eq_hash_kb; |a: u8, m: u8, b: u8, n: u8| {
+        let x = Rsync::from_bytes(mkbytes([b'r', b's', b'y', b'n', b'c', b':', b'/', b'/', a, b'/', m, b'/', b'p'], 13));
+        let y = Rsync::from_bytes(mkbytes([b'R', b's', b'Y', b'n', b'c', b':', b'/', b'/', b, b'/', n, b'/', b'p'], 13));
         if let (Ok(x), Ok(y)) = (x, y) {
-            let want = a.to_ascii_lowercase() == b.to_ascii_lowercase() && m == n && p == q;
+            let want = a.to_ascii_lowercase() == b.to_ascii_lowercase() && m == n;
             assert!((x == y) == want, "rsync equality: scheme and authority case-insensitive, the rest exact");
             assert!((y == x) == want, "symmetric");
             if x == y { assert!(fed(&x) == fed(&y), "equal rsync URIs hash equally"); }
         }
+    }}
+    //@harness https_eq_hash_kb Kb fn=PartialEq/Hash(Https) bound="https://<a>/<p> vs HTtps://<b>/<q>: four symbolic octets" timeout=1500
+    verif_harness!{ #[kani::unwind(30)] https_eq_hash_kb; |a: u8, p: u8, b: u8, q: u8| {
         let u = Https::from_bytes(mkbytes([b'h', b't', b't', b'p', b's', b':', b'/', b'/', a, b'/', p], 11));
         let v = Https::from_bytes(mkbytes([b'H', b'T', b't', b'p', b's', b':', b'/', b'/', b, b'/', q], 11));
         if let (Ok(u), Ok(v)) = (u, v) {
